@@ -6,12 +6,15 @@ Open Scope N_scope.
 
 Inductive case :=
 | CComp (x comp dec : bytes)     (* comp = common.Compress x, dec = common.Decompress comp *)
+| CCompRT (x comp : bytes)       (* the same when dec was observed to be equal to x (printed once) *)
 | CDecomp (stream out : bytes).  (* out = common.Decompress stream, any stream *)
 
 Definition check (c : case) : bool :=
   match c with
   | CComp x comp dec =>
       bytes_eqb (compress x) comp && bytes_eqb (decompress_lenient comp) dec
+  | CCompRT x comp =>
+      bytes_eqb (compress x) comp && bytes_eqb (decompress_lenient comp) x
   | CDecomp stream out =>
       bytes_eqb (decompress_lenient stream) out
   end.
